@@ -222,7 +222,7 @@ MUTANTS = [
     # ---------------- reverts of the later repairs
     ("c10_stale_restore_revert", "C10", "xitorch/_core/pure_function.py",
      "        cur_allobjparams = self._get_all_obj_params_init()\n",
-     "        cur_allobjparams = self._uniq.map_unique_objs(self._cur_objparams)\n", 1),
+     "        cur_allobjparams = self._allobjparams\n", 1),
     ("c10_pergroup_restore_revert", "C10", "xitorch/_core/pure_function.py",
      "            self._set_all_obj_params(old_allobjparams)\n",
      "            self._set_all_obj_params(self._uniq.map_unique_objs(self._uniq.get_unique_objs(old_allobjparams)))\n", 1),
@@ -234,7 +234,7 @@ MUTANTS = [
      "        for (objdict, key), tensor in zip(all_places, copy_tensors0):\n            objdict[key] = tensor\n        try:\n", 1),
     ("c17_objparams_stale_revert", "C17", "xitorch/_core/pure_function.py",
      "        return self._uniq.get_unique_objs(self._get_all_obj_params_init())\n\n    def set_objparams",
-     "        return self._cur_objparams\n\n    def set_objparams", 1),
+     "        return self._uniq.get_unique_objs()\n\n    def set_objparams", 1),
     ("c17_shadowed_params_revert", "C17", "xitorch/_core/pure_function.py",
      "        named_params = [(name, p) for (name, p) in named_params if p is not None]\n",
      "        named_params = [(name, p) for (name, p) in named_params if isinstance(p, torch.nn.Parameter)]\n", 1),
